@@ -17,6 +17,7 @@ type params struct {
 	Index int    `json:"index"`
 	Count int    `json:"count"`
 	Fixed string `json:"fixed,omitempty"`
+	Split bool   `json:"split,omitempty"` // station B in a child process with the opposite GZIP_EXPERIMENT setting
 }
 
 var Check = &vrt.Check{
@@ -27,7 +28,7 @@ var Check = &vrt.Check{
 		"non-trivial = at least one message body was transferred; distinct = distinct (scenario index, transferred MIDs) signatures",
 	Assumptions: []string{
 		"MOTD lines are printable text that is not itself protocol (not starting with [ ; * and not ending in >)",
-		"GZIP_EXPERIMENT is process-global: only on/on and off/off are exercised in-process",
+		"GZIP_EXPERIMENT is process-global: on/on and off/off run in-process; the asymmetric settings run with station B in a child process (Unix socketpair link), where the cross-station ordering clause (reported sent only after delivery) is not evaluated for lack of a common clock - C02 decides it",
 		"mailboxes are the in-memory reference handler (the directory mailbox is exercised by C02/C10-C12)",
 	},
 	Plan:            plan,
@@ -49,6 +50,14 @@ func plan(seed int64, tier string) []vrt.Case {
 	for i := 0; i < n; i += per {
 		cs = append(cs, vrt.Case{ID: fmt.Sprintf("rand-%d", i), Params: vrt.MustParams(params{Seed: seed, Index: i, Count: per}), TimeoutS: 600})
 	}
+	// asymmetric GZIP_EXPERIMENT settings: station B runs in a child process with its own environment
+	nsplit := 48
+	if tier == "thorough" {
+		nsplit = 1200
+	}
+	for i := 0; i < nsplit; i += 6 {
+		cs = append(cs, vrt.Case{ID: fmt.Sprintf("split-%d", i), Params: vrt.MustParams(params{Seed: seed, Index: i, Count: 6, Split: true}), TimeoutS: 600})
+	}
 	return cs
 }
 
@@ -63,7 +72,7 @@ func runScenario(o *vrt.Obs, sc *b2fx.Scenario, tag string) {
 	ev := lg.Events()
 	b2fx.EventCounts(o, ev)
 	before := len(o.Violations)
-	b2fx.CheckCompleted(o, sc, res, a, b, ev)
+	b2fx.CheckCompleted(o, sc, res, a.Pending(), b.Pending(), ev)
 	for i := before; i < len(o.Violations); i++ {
 		if o.Violations[i].Detail == nil {
 			o.Violations[i].Detail = map[string]any{"scenario": sc.Describe(), "case": tag}
@@ -96,6 +105,37 @@ func run(c vrt.Case) vrt.Obs {
 			return o
 		}
 		runScenario(&o, sc, "fixed-"+p.Fixed)
+		return o
+	}
+	if p.Split {
+		for i := p.Index; i < p.Index+p.Count; i++ {
+			r := vrt.Rand(p.Seed, "c01split", i)
+			sc, err := b2fx.GenScenario(r, 8)
+			if err != nil {
+				o.Inconclusive = append(o.Inconclusive, fmt.Sprintf("scenario %d: generator: %v", i, err))
+				continue
+			}
+			gzA := i%2 == 0
+			o.Evals++
+			res, a, ev, pendB, err := b2fx.RunPairSplit(sc, gzA, !gzA)
+			if err != nil {
+				o.Inconclusive = append(o.Inconclusive, fmt.Sprintf("split scenario %d: %v", i, err))
+				continue
+			}
+			b2fx.EventCounts(&o, ev)
+			before := len(o.Violations)
+			b2fx.CheckCompleted(&o, sc, res, a.Pending(), pendB, ev)
+			for k := before; k < len(o.Violations); k++ {
+				if o.Violations[k].Detail == nil {
+					o.Violations[k].Detail = map[string]any{"scenario": sc.Describe(), "gzip_A": gzA, "gzip_B": !gzA, "case": fmt.Sprintf("split-%d", i)}
+				}
+			}
+			o.Count("sessions_split_process_asymmetric_gzip", 1)
+			if n := len(res.A.Stats.Sent) + len(res.B.Stats.Sent); n > 0 {
+				o.Sig("split%d %v %v", i, res.A.Stats.Sent, res.B.Stats.Sent)
+				o.Count("messages_transferred", int64(n))
+			}
+		}
 		return o
 	}
 	for i := p.Index; i < p.Index+p.Count; i++ {
